@@ -36,8 +36,8 @@ func (p *Prog) upChan(s *Sym, depth int) *Sym {
 	}
 	idx := paramIndex(fn, par)
 	var found *Sym
-	for _, cs := range p.CallSites(fn) {
-		args := cs.Common().Args
+	for _, sa := range p.CallSitesX(fn) {
+		args := sa.Args
 		if idx < 0 || idx >= len(args) {
 			return s
 		}
@@ -67,11 +67,11 @@ func (p *Prog) upParam(s *Sym, depth int) *Sym {
 	}
 	idx := paramIndex(fn, par)
 	var found *Sym
-	for _, cs := range p.CallSites(fn) {
-		if _, isGo := cs.(*ssa.Go); isGo {
+	for _, sa := range p.CallSitesX(fn) {
+		if _, isGo := sa.Call.(*ssa.Go); isGo {
 			return s
 		}
-		args := cs.Common().Args
+		args := sa.Args
 		if idx < 0 || idx >= len(args) {
 			return s
 		}
@@ -240,6 +240,9 @@ func (p *Prog) BlockingOps(fn *ssa.Function) []*BlockOp {
 						cs = p.Sym(a)
 					}
 				}
+				if ci, isCI := in.(ssa.CallInstruction); isCI && len(p.funcValueTargets(nil, ci)) > 0 {
+					continue // methods of the product handed on as values: visited through Reach
+				}
 				out = append(out, &BlockOp{Fn: fn, In: in, Kind: "dyncall", Callee: cs.String(), Dyn: true})
 			}
 		}
@@ -391,6 +394,14 @@ func boundedHeader(b *ssa.BasicBlock, c map[*ssa.BasicBlock]bool) bool {
 			}
 			if !c[in.Block()] {
 				return true
+			}
+			// len / cap of a value that is itself invariant (for i := 0; i < len(list); i++)
+			if call, isCall := v.(*ssa.Call); isCall {
+				if bi, isB := call.Call.Value.(*ssa.Builtin); isB && (bi.Name() == "len" || bi.Name() == "cap") && len(call.Call.Args) == 1 {
+					if _, isPar := call.Call.Args[0].(*ssa.Parameter); isPar {
+						return true
+					}
+				}
 			}
 			// a field re-loaded in the loop is invariant if the loop's function never stores to a
 			// field of that name (e.g. dsc.opts.Limit.Quantity)
